@@ -164,10 +164,10 @@ func ruleQU() Rule {
 					}
 				case *ast.CallExpr:
 					if fo := core.StaticCallee(info, n); fo != nil {
-						switch c.P.FuncOf(fo) {
-						case c.fn("parser.(*lexer).read"):
+						switch g := c.P.FuncOf(fo); {
+						case g != nil && g == c.fn("parser.(*lexer).read"):
 							calls = append(calls, "read")
-						case c.fn("parser.(*lexer).error"):
+						case g != nil && c.errorReporters()[g]:
 							calls = append(calls, "error")
 						default:
 							calls = append(calls, fo.Name())
@@ -533,4 +533,90 @@ func decodedWidthAt(f *core.Func, info *types.Info, w ast.Expr, rs *ast.RangeStm
 		return true
 	})
 	return found
+}
+
+// ---------------------------------------------------------------------------
+// QU3: "$@" with no positional parameters.
+
+func ruleQU3() Rule {
+	return Rule{ID: "QU3", Kind: "must", Floor: 1,
+		Doc: "a double-quoted part always contributes a field - except \"$@\" when there are no positional parameters, which generates none (XCU 2.5.2). In expand's `case *ast.Quote`, the recursive expansion in Quote mode (which marks the field as quoted, hence kept) is preceded by a test that reads the positional parameters (ExecEnv.Args, directly or in a helper of the package) and leaves the clause",
+		Run: func(c *Ctx, rr *core.RuleResult) {
+			f := c.mustFn(rr, "interp.(*ExecEnv).expand")
+			if f == nil {
+				return
+			}
+			info := f.Info()
+			args := c.fieldVar("interp", "ExecEnv", "Args")
+			readsArgs := func(g *core.Func, n ast.Node) bool {
+				found := false
+				gi := g.Info()
+				ast.Inspect(n, func(x ast.Node) bool {
+					if se, ok := x.(*ast.SelectorExpr); ok && core.FieldOf(gi, se) == args {
+						found = true
+					}
+					return !found
+				})
+				return found
+			}
+			condReadsArgs := func(cond ast.Expr) bool {
+				if readsArgs(f, cond) {
+					return true
+				}
+				ok := false
+				ast.Inspect(cond, func(x ast.Node) bool {
+					if call, isCall := x.(*ast.CallExpr); isCall {
+						if fo := core.StaticCallee(info, call); fo != nil {
+							if h := c.P.FuncOf(fo); h != nil && h.Pkg == f.Pkg && h.Body != nil && h != f && readsArgs(h, h.Body) {
+								ok = true
+							}
+						}
+					}
+					return !ok
+				})
+				return ok
+			}
+			n := 0
+			for _, cc := range typeSwitchClauses(f, "*ast.Quote") {
+				// the recursive expansions in Quote mode
+				ast.Inspect(cc, func(x ast.Node) bool {
+					call, ok := x.(*ast.CallExpr)
+					if !ok || !strings.HasSuffix(calleeName(info, call), "(*ExecEnv).expand") || len(call.Args) != 2 {
+						return true
+					}
+					n++
+					key := fmt.Sprintf("%s|quoted expansion #%d", f.Name, n)
+					// an earlier if in the same clause body that reads Args and leaves
+					guarded := false
+					inner := enclosingCase(c.P, call)
+					if inner != nil {
+						for _, st := range inner.Body {
+							if st.Pos() >= call.Pos() {
+								break
+							}
+							ifs, ok := st.(*ast.IfStmt)
+							if !ok || !condReadsArgs(ifs.Cond) {
+								continue
+							}
+							ast.Inspect(ifs.Body, func(y ast.Node) bool {
+								switch y.(type) {
+								case *ast.BranchStmt, *ast.ReturnStmt:
+									guarded = true
+								}
+								return true
+							})
+						}
+					}
+					if guarded {
+						rr.OK(f, key, call.Pos(), "zero-fields", "the clause is left before the field is marked quoted when \"$@\" has nothing to expand to")
+					} else {
+						rr.Bad(f, key, call.Pos(), "the double-quoted part is expanded (and the field marked as quoted, hence kept) without asking whether it is \"$@\" with no positional parameters: that case must generate zero fields, not one empty field")
+					}
+					return true
+				})
+			}
+			if n == 0 {
+				rr.Unk(f, f.Name+"|quoted expansion", f.Pos(), "no recursive expansion found under case *ast.Quote")
+			}
+		}}
 }
